@@ -22,7 +22,7 @@ BUDGET = {"C17": {"quick": 12000, "thorough": 400000}}
 WORK = "/sim/work"
 PATH = WORK + "/table.csv"
 
-NAMES = ("A", "B2", "col c", "x,y", 'q"uote', "café", "Out", " lead", "trail ", "a;b", "'s", "#h", "R-1", "0", "T=1")
+NAMES = ("a\x0cb", "x\u2028y", "p\x85q", "v\x0bt", "A", "B2", "col c", "x,y", 'q"uote', "café", "Out", " lead", "trail ", "a;b", "'s", "#h", "R-1", "0", "T=1")
 SPECIAL = (5e-324, -5e-324, 2.2250738585072014e-308, 1.7976931348623157e+308, -1.7976931348623157e+308, -0.0, 0.0,
            0.1, 1.0 / 3.0, 3.141592653589793, 1e-7, 123456789.12345679, 1e22, 9007199254740992.0, -2.5e-320, 1e300)
 
